@@ -179,7 +179,8 @@ def scenarios(tier):
         Scenario("cache-miss/call_next-chain", BASE, SIGMA, _warm([5]), _call(k1), [ids(BASE)]),
         Scenario("rebuild/register-changes-entry-point", BASE, SIGMA2, _warm([k1, 5]), _register(7), [ids(BASE), ids(BASE) + (7,)]),
         # the interrupted operation is followed by a registration: the function must then serve the new method set
-        Scenario("first-call-interrupted/then-register", BASE, SIGMA2, _noop, _first_call("dispatch", k1), [ids(BASE) + (7,)], post=_register(7)),
+        Scenario("first-call-interrupted/then-register", BASE, SIGMA2, _noop, _first_call("dispatch", k1), [ids(BASE) + (7,)], post=_register(7),
+                 entries=(0,)),
         # an interrupted change of a function in use, followed by another (uninterrupted) change
         Scenario("register-interrupted/then-register", BASE, SIGMA[:4], _warm([k1, 5]), _register(8),
                  [ids(BASE) + (9,), ids(BASE) + (8, 9)], post=_register(9), entries=(0,)),
